@@ -146,6 +146,7 @@ type opResult struct {
 	op    sessfs.Op
 	err   error
 	nqids int
+	obs   lobs
 }
 
 func doOp(s p9p.Session, ctx context.Context, op sessfs.Op) opResult {
@@ -158,29 +159,47 @@ func doOp(s p9p.Session, ctx context.Context, op sessfs.Op) opResult {
 func doOp1(s p9p.Session, ctx context.Context, op sessfs.Op, r *opResult, perr *error) opResult {
 	var err error
 	defer func() { *perr = err; r.err = err }()
+	o := &r.obs
 	switch op.Kind {
 	case "attach":
-		_, err = s.Attach(ctx, p9p.Fid(op.Fid), p9p.Fid(op.Afid), "user", "")
+		o.Qid, err = s.Attach(ctx, p9p.Fid(op.Fid), p9p.Fid(op.Afid), "user", "")
 	case "walk":
 		var q []p9p.Qid
 		q, err = s.Walk(ctx, p9p.Fid(op.Fid), p9p.Fid(op.Newfid), op.Names...)
 		r.nqids = len(q)
+		o.Qids = q
 	case "open":
-		_, _, err = s.Open(ctx, p9p.Fid(op.Fid), p9p.Flag(op.Mode))
+		o.Qid, _, err = s.Open(ctx, p9p.Fid(op.Fid), p9p.Flag(op.Mode))
 	case "create":
-		_, _, err = s.Create(ctx, p9p.Fid(op.Fid), op.Name, op.Perm, p9p.Flag(op.Mode))
+		o.Qid, _, err = s.Create(ctx, p9p.Fid(op.Fid), op.Name, op.Perm, p9p.Flag(op.Mode))
 	case "read":
-		_, err = s.Read(ctx, p9p.Fid(op.Fid), make([]byte, op.Count), op.Offset)
+		buf := make([]byte, op.Count)
+		var n int
+		n, err = s.Read(ctx, p9p.Fid(op.Fid), buf, op.Offset)
+		if n >= 0 && n <= len(buf) {
+			o.Data = string(buf[:n])
+		}
+		o.N = n
 	case "write":
-		_, err = s.Write(ctx, p9p.Fid(op.Fid), []byte(op.Data), op.Offset)
+		o.N, err = s.Write(ctx, p9p.Fid(op.Fid), []byte(op.Data), op.Offset)
 	case "stat":
-		_, err = s.Stat(ctx, p9p.Fid(op.Fid))
+		o.Dir, err = s.Stat(ctx, p9p.Fid(op.Fid))
 	case "wstat":
 		err = s.WStat(ctx, p9p.Fid(op.Fid), p9p.Dir{Mode: op.Perm, Length: ^uint64(0)})
 	case "clunk":
 		err = s.Clunk(ctx, p9p.Fid(op.Fid))
 	case "remove":
 		err = s.Remove(ctx, p9p.Fid(op.Fid))
+	}
+	if err != nil {
+		o.Err = err.Error()
+		if o.Err == "" {
+			o.Err = "error"
+		}
+		o.Dup = err == p9p.ErrDupfid
+		if m, ok := err.(p9p.MessageRerror); ok && strings.Contains(m.Ename, "duplicate fid") {
+			o.Dup = true
+		}
 	}
 	r.err = err
 	return *r
@@ -202,6 +221,7 @@ func RunConc(c ConcCase) harn.Result {
 
 	var mu sync.Mutex
 	cur := map[int]*curOp{} // per goroutine: fault plan of the op in flight
+	var hist []linOp        // invocation/return history for the linearizability oracle
 	events := make(chan event, 64)
 	gated := false
 
@@ -236,10 +256,11 @@ func RunConc(c ConcCase) harn.Result {
 		mu.Lock()
 		cur[0] = &curOp{fault: op.Fault, partial: op.Partial}
 		mu.Unlock()
-		done := make(chan struct{})
-		go func() { doOp(sess, ctx0, op); close(done) }()
+		done := make(chan opResult, 1)
+		go func() { done <- doOp(sess, ctx0, op) }()
 		select {
-		case <-done:
+		case r := <-done:
+			hist = append(hist, linOp{g: 0, i: len(hist), op: op, obs: r.obs, call: int64(2*len(hist) + 1), ret: int64(2*len(hist) + 2)})
 		case <-time.After(watchdog):
 			return harn.Fail("prefix operation %s did not return", op)
 		}
@@ -254,7 +275,7 @@ func RunConc(c ConcCase) harn.Result {
 		g, i       int
 		start, end int64
 	}
-	var clock int64
+	clock := int64(2*len(hist) + 10)
 	var spans []opspan
 	var results []opResult
 	// which fids are bound when the concurrent phase starts
@@ -283,6 +304,7 @@ func RunConc(c ConcCase) harn.Result {
 				results = append(results, r)
 				clock++
 				spans = append(spans, opspan{g: g, i: i, start: st, end: clock})
+				hist = append(hist, linOp{g: g, i: i, op: op, obs: r.obs, call: st, ret: clock})
 				mu.Unlock()
 			}
 			events <- event{g: g, kind: "done"}
@@ -421,6 +443,20 @@ func RunConc(c ConcCase) harn.Result {
 			return harn.Fail("fid %d: bound at the start=%v, %d operations reported binding it, %d clunk/remove operations reported unbinding it, bound at the end=%v — no sequential order of the operations explains these results (gate release order: %s)",
 				f, initial[f], binds[f], unbinds[f], final[f], strings.Join(order, " "))
 		}
+	}
+	// the results are those of some sequential order consistent with real time
+	verdict, tainted := checkLinearizable(hist, 10*time.Second)
+	switch verdict {
+	case "":
+		if tainted {
+			res.Classes = append(res.Classes, "lin_tainted")
+		} else {
+			res.Classes = append(res.Classes, "lin_checked")
+		}
+	case "unknown":
+		res.Classes = append(res.Classes, "lin_budget_exhausted")
+	default:
+		return harn.Fail("%s (gate release order: %s)", verdict, strings.Join(order, " "))
 	}
 	// non-trivial: two ops on the same fid overlapped in real time
 	overlap := false
